@@ -151,7 +151,8 @@ func ReadNBytes(n int, rd io.Reader) ([]byte, error) {
 		return b, err
 	}
 	var b []byte = make([]byte, n)
-	num, err := rd.Read(b)
+	// a single Read may legally return fewer bytes than asked for
+	num, err := io.ReadFull(rd, b)
 
 	// if num is correct, we are not interested in io.EOF errors
 	if num == n {
